@@ -393,3 +393,103 @@ func checkC05(c *FmtCase) Result {
 func isStringKind(x interface{}) bool {
 	return x != nil && reflect.TypeOf(x).Kind() == reflect.String
 }
+
+// ---- C05Typed: classification does not depend on the static type of the slot ---
+
+// C05Typed: the same leaves in a container whose slots have the leaves' own
+// type and in one whose slots are interface-typed.
+type C05Typed struct {
+	Shape  string     `json:"shape"` // slice, array, map, struct, pstruct, rvslice
+	Leaves []*Val     `json:"leaves"`
+	Dir    *Directive `json:"dir"`
+	Reg    []string   `json:"reg,omitempty"`
+}
+
+func init() {
+	register("C05Typed", "C05", func() interface{} { return &C05Typed{} }, func(s interface{}) Result { return checkC05Typed(s.(*C05Typed)) })
+}
+
+var ifaceType = reflect.TypeOf((*interface{})(nil)).Elem()
+
+// checkC05Typed: whether a value is safe is a matter of its own type (marker
+// method, registration, wrapper), not of how the container holding it
+// declares its slots: the typed and the interface-typed container print alike.
+func checkC05Typed(s *C05Typed) Result {
+	var res Result
+	applyConfig(s.Reg, false, nil)
+	defer resetConfig()
+	var xs []interface{}
+	if p, _ := guard(func() { xs = BuildAll(s.Leaves, 0) }); p || len(xs) < 2 || xs[0] == nil || xs[1] == nil {
+		return res
+	}
+	t0, t1 := reflect.TypeOf(xs[0]), reflect.TypeOf(xs[1])
+	v0, v1 := reflect.ValueOf(xs[0]), reflect.ValueOf(xs[1])
+	var typed, untyped interface{}
+	switch s.Shape {
+	case "slice", "rvslice", "array":
+		if t0 != t1 {
+			return res
+		}
+		mk := func(et reflect.Type) reflect.Value {
+			var c reflect.Value
+			if s.Shape == "array" {
+				c = reflect.New(reflect.ArrayOf(2, et)).Elem()
+			} else {
+				c = reflect.MakeSlice(reflect.SliceOf(et), 2, 2)
+			}
+			c.Index(0).Set(v0)
+			c.Index(1).Set(v1)
+			return c
+		}
+		if s.Shape == "rvslice" {
+			typed, untyped = mk(t0), mk(ifaceType) // reflect.Value operands
+		} else {
+			typed, untyped = mk(t0).Interface(), mk(ifaceType).Interface()
+		}
+	case "map":
+		if !t0.Comparable() {
+			return res
+		}
+		mk := func(kt, vt reflect.Type) interface{} {
+			m := reflect.MakeMap(reflect.MapOf(kt, vt))
+			m.SetMapIndex(v0, v1)
+			return m.Interface()
+		}
+		typed, untyped = mk(t0, t1), mk(ifaceType, ifaceType)
+	default: // struct, pstruct
+		mk := func(a, b reflect.Type) interface{} {
+			st := reflect.StructOf([]reflect.StructField{{Name: "A", Type: a}, {Name: "B", Type: b}, {Name: "N", Type: reflect.TypeOf(0)}})
+			p := reflect.New(st)
+			p.Elem().Field(0).Set(v0)
+			p.Elem().Field(1).Set(v1)
+			if s.Shape == "pstruct" {
+				return p.Interface()
+			}
+			return p.Elem().Interface()
+		}
+		typed, untyped = mk(t0, t1), mk(ifaceType, ifaceType)
+	}
+	res.Classes = append(res.Classes, "shape:"+s.Shape, "elem:"+s.Leaves[0].K)
+	res.NonTrivial = declaredSafe(s.Leaves[0].K, regMap(s.Reg)) || declaredSafe(s.Leaves[1].K, regMap(s.Reg))
+	d := s.Dir.String()
+	a := callRedact("Sprintf", d, []interface{}{typed})
+	b := callRedact("Sprintf", d, []interface{}{untyped})
+	if a.panicked || b.panicked {
+		if a.panicked != b.panicked {
+			res.Err = fmt.Errorf("Sprintf(%s, %s of %s): panicked=%v with typed slots, %v with interface-typed slots", qs(d), s.Shape, s.Leaves[0].K, a.panicked, b.panicked)
+		}
+		return res
+	}
+	if !bytes.Equal(a.out, b.out) {
+		res.Err = fmt.Errorf("Sprintf(%s, %s of %s/%s): %s with slots of the values' own types, %s with interface-typed slots", qs(d), s.Shape, s.Leaves[0].K, s.Leaves[1].K, q(a.out), q(b.out))
+	}
+	return res
+}
+
+func regMap(reg []string) map[string]bool {
+	m := map[string]bool{}
+	for _, k := range reg {
+		m[k] = true
+	}
+	return m
+}
